@@ -424,10 +424,23 @@ def r8(ctx):
     c12.r6(ctx, P, "C05.R8")
 
 
-RULES = [r1, r2, r3, r4, r5, r6, r7, r8]
+def r9(ctx):
+    """the signed tree head never reaches the disk ahead of the nodes it signs: the periodic flush
+    writes (and checks) the tree nodes before the oplog header that carries length, root hash and
+    signature and that obsoletes the log entries holding those nodes — otherwise a crash or a
+    failed tree write leaves a validly signed head over missing (zero) nodes (the clauses of C02.R4)"""
+    from . import c02
+    before = len(ctx.insts)
+    c02.r4(ctx)
+    for i in ctx.insts[before:]:
+        i.prop, i.rule = P, "C05.R9"
+        i.key = i.key.replace("C02|C02.R4", "C05|C05.R9")
+
+
+RULES = [r1, r2, r3, r4, r5, r6, r7, r8, r9]
 EXPLANATION = ("C05 (tree, root hash and signature match the v10 scheme): decides the hash pre-image layouts from the ordered Digest::update calls and the immediately-called encoding closures — "
                "leaf [0][u64le len][data], parent [1][u64le sum][lower-index child hash][other hash], tree [2] then per root [hash][u64le index][u64le length] (R1); the type bytes and the 32-byte tree "
                "namespace (R2); signable = [TREE][hash:32][u64le length][u64le fork] (R3); big-endian helper confined to unused legacy functions and every node producer hashing through Hash::data / "
-               "Hash::parent with index / size operands of the scheme (R4); sign/verify symmetry and the header / entry copies of hash, signature, length (R5); the 40-byte tree record (R6); the position-by-position rebuild of the root list when a logged upgrade is replayed (R7). R8: the key pair a core signs with is the key pair of the header Oplog::open returned (shared with C12.R6).")
+               "Hash::parent with index / size operands of the scheme (R4); sign/verify symmetry and the header / entry copies of hash, signature, length (R5); the 40-byte tree record (R6); the position-by-position rebuild of the root list when a logged upgrade is replayed (R7). R8: the key pair a core signs with is the key pair of the header Oplog::open returned (shared with C12.R6). R9: the periodic flush writes and checks the tree nodes before the header that carries the signed head (the clauses of C02.R4).")
 NOT_DECIDED = "the numeric value of any hash or signature; append_root's choice of which roots to merge (flat-tree arithmetic); flat in-order numbering itself (flat_tree dependency)."
 ASSUMPTIONS = ["blake2 and ed25519-dalek implement BLAKE2b-256 and Ed25519", "reference layout table = Hypercore v10 scheme as named in the property"]
